@@ -45,6 +45,7 @@ func q(s string) string { return fmt.Sprintf("%q", clip(s, 1500)) }
 
 // applyAllV5: DecodePatch, the accessors and every Apply variant of v5.
 func applyAllV5(c *core.Ctx, doc, patch string, o optSet) {
+	c.Trace("v5 DecodePatch+Apply*: doc=%s patch=%s options=%s", q(doc), q(patch), o)
 	args := map[string]any{"doc": q(doc), "patch": q(patch), "options": o.String()}
 	var p jp.Patch
 	var err error
@@ -79,6 +80,7 @@ func applyAllV5(c *core.Ctx, doc, patch string, o optSet) {
 }
 
 func applyAllLegacy(c *core.Ctx, doc, patch string, o optSet) {
+	c.Trace("legacy DecodePatch+Apply*: doc=%s patch=%s options=%s", q(doc), q(patch), o)
 	args := map[string]any{"doc": q(doc), "patch": q(patch), "options": o.String()}
 	var p jpl.Patch
 	var err error
@@ -112,6 +114,7 @@ func applyAllLegacy(c *core.Ctx, doc, patch string, o optSet) {
 
 // pairAll: the two-argument functions of both packages.
 func pairAll(c *core.Ctx, a, b string, legacy bool) {
+	c.Trace("Equal/MergePatch/MergeMergePatches/CreateMergePatch (legacy=%v): a=%s b=%s", legacy, q(a), q(b))
 	args := map[string]any{"a": q(a), "b": q(b)}
 	A, B := []byte(a), []byte(b)
 	if !legacy {
@@ -421,6 +424,9 @@ var c04Witnesses = [][2]string{
 	{`[{"a":null}]`, `[null]`},
 	{``, ``},
 	{`{}`, ``},
+	{`{"a":1}`, `[{"op":"move","path":"//zz","from":"/"},{"op":"copy","path":"/","from":"/"}]`},
+	{`{"a":1,"":2}`, `[{"op":"move","path":"//zz","from":"/"},{"op":"copy","path":"/c","from":"/"},{"op":"test","path":"/","value":1}]`},
+	{`[1,[2]]`, `[{"op":"move","path":"//0","from":"/"},{"op":"copy","path":"/-","from":"/"}]`},
 }
 
 var matrixCases = [][2]string{
